@@ -121,6 +121,41 @@ class CFG:
         if isinstance(expr, ast.UnaryOp) and isinstance(expr.op, ast.Not):
             t, f = self._cond(expr.operand, frontier, stmt)
             return f, t
+        if _is_quantifier(expr):
+            # any(p(x) for x in it if c(x)) / all(...): the search loop it abbreviates - a `for` node over `it`, the filters and the
+            # element test as branch conditions inside it, the answer on the first decisive element or on exhaustion
+            comp = expr.args[0]
+            gen = comp.generators[0]
+            loop_ast = ast.copy_location(ast.For(target=gen.target, iter=gen.iter, body=[ast.Pass()], orelse=[]), expr)
+            ast.fix_missing_locations(loop_ast)
+            n = self._new("for", loop_ast, stmt)
+            n.virtual = self._virtual_depth > 0
+            self._connect(frontier, n)
+            self._exc_edges(n)
+            cur = [(n, ("iter", loop_ast, True))]
+            back = []
+            self._loop_stack.append((loop_ast, n, []))
+            try:
+                for c in gen.ifs:
+                    t, f = self._cond(c, cur, stmt)
+                    back += f
+                    cur = t
+                t, f = self._cond(comp.elt, cur, stmt)
+            finally:
+                self._loop_stack.pop()
+            exhausted = [(n, ("iter", loop_ast, False))]
+            if expr.func.id == "any":
+                self._connect(back + f, n)
+                return t, exhausted
+            self._connect(back + t, n)
+            return exhausted, f
+        if isinstance(expr, ast.Call) and isinstance(expr.func, ast.Name) and expr.func.id in ("all", "any") and len(expr.args) == 1 \
+                and not expr.keywords and isinstance(expr.args[0], (ast.Tuple, ast.List)) and expr.args[0].elts \
+                and not any(isinstance(x, ast.Starred) for x in expr.args[0].elts):
+            # all((a, b, c)) / any([a, b]) over a literal sequence: the same decision as `a and b and c` / `a or b` (every element is
+            # evaluated, none of them short-circuited - which makes no difference to which branch is taken)
+            op = ast.And() if expr.func.id == "all" else ast.Or()
+            return self._cond(ast.copy_location(ast.BoolOp(op=op, values=list(expr.args[0].elts)), expr), frontier, stmt)
         if isinstance(expr, ast.Name) and self._ld is not None and self._virtual_depth < 3:
             # a guard held in a local: `c = <condition>` (bound exactly once, whole value) ... `if c:` is decomposed like the
             # condition itself; the atoms are *virtual* (nothing is evaluated here, only the remembered value is tested)
@@ -249,6 +284,15 @@ class CFG:
             done, outs = self._ifexp_split(s, frontier)
             if done:
                 return outs
+            if s.value is not None and _is_quantifier(s.value):
+                # `return any(...)` / `return all(...)`: the search loop, answering True / False
+                t, f = self._cond(s.value, frontier, s)
+                for fr, val in ((t, True), (f, False)):
+                    if fr:
+                        r = ast.copy_location(ast.Return(value=ast.copy_location(ast.Constant(value=val), s)), s)
+                        n = self._simple(r, fr)
+                        self._edge(n, self.exit)
+                return []
             n = self._simple(s, frontier)
             self._edge(n, self.exit)
             return []
@@ -474,6 +518,13 @@ def path_text(path: Optional[List[Edge]], limit: int = 12) -> List[str]:
     if len(out) > limit:
         out = out[: limit // 2] + ["..."] + out[-limit // 2 :]
     return out
+
+
+def _is_quantifier(e: ast.AST) -> bool:
+    """any(<elt> for x in it [if c]) / all(...) with one generator (generator expression or list comprehension)."""
+    return (isinstance(e, ast.Call) and isinstance(e.func, ast.Name) and e.func.id in ("any", "all") and len(e.args) == 1 and not e.keywords
+            and isinstance(e.args[0], (ast.GeneratorExp, ast.ListComp)) and len(e.args[0].generators) == 1
+            and not e.args[0].generators[0].is_async)
 
 
 _MIRROR = {ast.Lt: ast.Gt, ast.Gt: ast.Lt, ast.LtE: ast.GtE, ast.GtE: ast.LtE, ast.Eq: ast.Eq, ast.NotEq: ast.NotEq}
